@@ -5,7 +5,10 @@ by' / other error, per posting the exact amount (the assigned amounts in particu
 Oracle (property text, Fractions): an independent fold over the history in file order decides every
 assertion (exact account, real postings only for an assertion on a real posting, all postings for one
 on a virtual posting, dates ignored, lots stripped, bare 0 = every commodity zero) and computes every
-assigned amount; --permissive never fails an assertion."""
+assigned amount; --permissive never fails an assertion.  A <deferred> posting counts within its own transaction only,
+until the file of its -f option has ended; inside `apply account` blocks the fold is over the qualified accounts; a cost
+plays no part (the amount is counted); a bare `= 0` assignment receives minus the account's one commodity, nothing when
+it holds none, and is an error when it holds several."""
 import re
 from fractions import Fraction as F
 import lib
@@ -15,8 +18,8 @@ META = dict(
     id='C09',
     level='proof',
     technique='Coq proof about the model of the `= AMOUNT` clause (assertion accepted iff running balance + posting - asserted amount displays as zero in the asserted commodity; assignment receives exactly asserted - running; permissive skips; dates play no role by construction) + differential correspondence against ledger',
-    level_text='Theorems in coq/Properties/Properties_C09.v are stated for resolve_assigned/run_journal_a, a transcription of parse_post\'s balance assertion/assignment code over the account totals (a fold over the postings that reached the account, in file order). The tie to the code is the comparison of whole generated histories (1-40 transactions, assertions and assignments on arbitrary postings, shuffled dates, virtual/real mix, lots, --permissive) between ledger and the extracted model: acceptance, error class and the exact amount of every posting.',
-    level_note='Trusted as C01. The lazy last_post/CONSIDERED walk of account_t::amount is modelled as the plain sum it computes (validated by the correspondence). Assertions with value expressions, and assertions following an elided posting to the same account (an error in ledger: the running balance is undefined), are outside the generators.',
+    level_text='Theorems in coq/Properties/Properties_C09.v are stated for resolve_assigned/run_journal_a, a transcription of parse_post\'s balance assertion/assignment code over the account totals (a fold over the postings that reached the account, in file order). The tie to the code is the comparison of whole generated histories (1-40 transactions, assertions and assignments on arbitrary postings, shuffled dates, virtual/real mix, lots, costs, <deferred> postings with the end of the first -f file, apply account blocks, bare `= 0` clauses, --permissive) between ledger and the extracted model (run_journal_d): acceptance, error class and the exact amount of every posting.',
+    level_note='Trusted as C01. The lazy last_post/CONSIDERED walk of account_t::amount is modelled as the plain sum it computes (validated by the correspondence). Account aliases, a transaction read twice under one UUID (its deferred postings are released early), assertions with value expressions, and assertions following an elided posting to the same account (an error in ledger: the running balance is undefined), are outside the generators.',
     design_ref='DESIGN.md section 7 C09',
     assumptions=['every commodity is taught its display precision by a first transaction, and all amounts are written with that many decimals',
                  'accounts are plain names; virtual accounts use the same names in (parentheses)'],
